@@ -6,7 +6,7 @@ CPP = 'src/binson.cpp'
 
 MUTANTS = [
     {'name': 'check_boundary_off_by_one', 'edits': [(P, '    if (c > max) {\n        /* Boundary violated */', '    if (c > max + 1) {\n        /* Boundary violated */')],
-     'expect': {'C01': '_consume'}},
+     'expect': {'C01': 'MEM-R'}},
     {'name': 'min_size_one', 'edits': [(P, 'if (parser->buffer_size < BINSON_OBJECT_MINIMUM_SIZE) {', 'if (parser->buffer_size < 1) {')],
      'expect': {'C01': 'INV-A1'}},
     {'name': 'depth_le_max', 'edits': [(P, '(parser->depth < parser->max_depth)) {', '(parser->depth <= parser->max_depth)) {')],
@@ -51,6 +51,14 @@ MUTANTS = [
      'expect': {'C17': 'malloc'}},
     {'name': 'plain_char_compare', 'edits': [(P, '    bbuf scan_name;\n', '    if (length > 0 && field_name[0] < 0) {\n        return false;\n    }\n    bbuf scan_name;\n')],
      'expect': {'C18': 'char'}},
+    {'name': 'reset_depth_dropped', 'edits': [(P, "            parser->error_flags = BINSON_ERROR_FORMAT;\n            return false;\n        }\n        parser->depth = 0;\n", "            parser->error_flags = BINSON_ERROR_FORMAT;\n            return false;\n        }\n")],
+     'expect': {'C12': 'depth'}},
+    {'name': 'reset_memset_one_entry', 'edits': [(P, 'memset(parser->state, 0x00U, (sizeof(binson_state)*parser->max_depth));', 'memset(parser->state, 0x00U, sizeof(binson_state));')],
+     'expect': {'C12': 'state array'}},
+    {'name': 'reset_current_state_dropped', 'edits': [(P, "    parser->current_state = &parser->state[0];\n\n    return true;", "    return true;")],
+     'expect': {'C12': 'current_state'}},
+    {'name': 'writer_reset_keeps_counter', 'edits': [(W, "    writer->buffer_used = 0;\n    writer->error_flags = BINSON_ERROR_NONE;\n\n    return true;", "    writer->error_flags = BINSON_ERROR_NONE;\n\n    return true;")],
+     'expect': {'C12': 'counter'}},
     # behaviour-preserving edits: every check must stay silent
     {'name': 'silent_boundary_reordered', 'edits': [(P, '''    size_t c = a + b;
 
